@@ -87,6 +87,7 @@ m("c07-best-feat-first-dir", "C07", "caught", DS, "            if num_passing > 
 # ---- C08
 m("c08-unsorted-match", "C08", "caught", PP, "decoys, pd.Series(sorted(proteins.peptide_map.keys()))", "decoys, pd.Series(list(proteins.peptide_map.keys()))")
 m("c08-sample-unseeded", "C08", "caught", UT, "        df.sample(frac=1, random_state=rng)", "        df.sample(frac=1)")
+m("c08-match-decoy-global-rng", "C08", "caught", "mokapot/peptides.py", "    targets = targets.sample(frac=1, random_state=rng).reset_index(drop=True)", "    targets = targets.sample(frac=1).reset_index(drop=True)", "repeat")
 m("c08-model-order", "C08", "caught", BR, "    fitted.sort(key=lambda x: x[0].fold)", "    pass", "cli")
 # ---- C09
 m("c09-glob", "C09", "caught", CF, "    scores_metadata_paths = [\n        dest_dir / f\"{file_prefix}scores_metadata_{i}{outfile_ext}\"\n        for i in range(len(scores_slices))\n    ]", "    scores_metadata_paths = list(\n        dest_dir.glob(f\"{file_prefix}scores_metadata_*\")\n    )")
